@@ -4,7 +4,7 @@
 # confirms in a fresh scratch worktree of /repo (never /repo itself): suite passes with the change, demo fails with it
 # and passes without; then archives under /verif/seeded/<archive-name>.
 export GOFLAGS=-mod=mod GOPROXY=off GOSUMDB=off GOTOOLCHAIN=local
-id=$1; arch=$2; root=${3:-/tmp/sa7}
+id=$1; arch=$2; root=${3:-/tmp/sa8}
 src=$root/$id
 w=/tmp/confirm-$arch
 rm -rf $w; git -C /repo worktree add -q --detach $w HEAD || exit 2
